@@ -109,9 +109,6 @@ __CPROVER_assigns(this->_base.w, __CPROVER_object_upto(w, 16))
 __CPROVER_ensures(WV_BLK(w) == WV_AES_DEC_SPEC(&this->_base, WV_BLK_OLD(w)));
 
 /* ---- constructors: the key schedule invariant is established from the 16 key bytes */
-#define WV_KEY16_EQ(a, b) ((a)[0] == (b)[0] && (a)[1] == (b)[1] && (a)[2] == (b)[2] && (a)[3] == (b)[3] && (a)[4] == (b)[4] && \
-  (a)[5] == (b)[5] && (a)[6] == (b)[6] && (a)[7] == (b)[7] && (a)[8] == (b)[8] && (a)[9] == (b)[9] && (a)[10] == (b)[10] && \
-  (a)[11] == (b)[11] && (a)[12] == (b)[12] && (a)[13] == (b)[13] && (a)[14] == (b)[14] && (a)[15] == (b)[15])
 
 void aeshandle__keyhandle__genall(aeshandle__keyhandle *this)
 __CPROVER_requires(__CPROVER_is_fresh(this, sizeof(*this)))
